@@ -253,6 +253,7 @@ var c07Behaviours = []string{
 	"plain", "read-after-eof", "abandon-half-read+Close", "abandon-half-read+CloseNow", "protocol-error-mid-message",
 	"local-Close-mid-compressed", "local-CloseNow-mid-compressed", "ctx-expiry-mid-compressed", "peer-close-between-fragments",
 	"bfinal-messages", "close-while-compressed-write-blocked", "wsjson", "read-after-eof-then-others-read",
+	"reader-call-mid-message",
 }
 
 func c07Gen(tier string, seed int64) []fw.Case {
@@ -382,7 +383,13 @@ func c07Conn(r *fw.R, beh string, role Role, p wire.Params, seed uint64, success
 	def := &wire.Deflater{Takeover: p.SenderTakeover(role == RoleServer)}
 	bufsz := []int{1, 7, 100, 4096}[rng.Intn(4)]
 	outcome := "ok"
-	defer func() { r.Key("%s/%s/%s/successor=%v/%s", beh, role, paramsKey(p), successor, outcome) }()
+	tStart := time.Now()
+	defer func() {
+		r.Key("%s/%s/%s/successor=%v/%s", beh, role, paramsKey(p), successor, outcome)
+		if el := time.Since(tStart); el > 20*time.Second {
+			r.Inconclusivef("connection %d (%s, %s, %s) took %v: the harness waited on something that did not happen", k, beh, role, paramsKey(p), el.Round(time.Second))
+		}
+	}()
 
 	sendMsg := func(m uint32, size int, comp bool, frags int, end wire.EndMode) []wire.Frame {
 		payload := provPayload(k, m, size)
@@ -551,6 +558,63 @@ func c07Conn(r *fw.R, beh string, role Role, p wire.Params, seed uint64, success
 			r.Count("closes_mid_compressed_message", 1)
 		}
 		switch beh {
+		case "reader-call-mid-message":
+			// part of a fragmented message is read, Reader is called again (refused), other connections get
+			// to use the pools, the rest arrives and the ORIGINAL reader goes on: it must yield this
+			// connection's message and nothing else
+			// (fragments of fixed, non empty sizes: the first Read must not depend on a later frame)
+			{
+				var all []byte
+				for _, f := range frs {
+					all = append(all, f.Payload...)
+				}
+				a, b := len(all)/3, 2*len(all)/3
+				frs = []wire.Frame{
+					{Op: wire.OpBinary, Rsv1: frs[0].Rsv1, Payload: all[:a], LenForm: -1},
+					{Op: wire.OpCont, Payload: all[a:b], LenForm: -1},
+					{Op: wire.OpCont, Fin: true, Payload: all[b:], LenForm: -1},
+				}
+			}
+			peer.Send(frs[0])
+			_, rd, err := c.Reader(ctx)
+			if err != nil {
+				r.Violate("C07/read-failed", fmt.Sprintf("connection %d (%s): %v", k, beh, err), "")
+				return
+			}
+			var data []byte
+			buf := make([]byte, 64)
+			if !frs[0].Rsv1 {
+				// (a compressed first fragment may not yield output before the next one arrives)
+				n, _ := rd.Read(buf)
+				data = append(data, buf[:n]...)
+			}
+			for i := 0; i < 3; i++ {
+				if _, _, err := c.Reader(ctx); err == nil {
+					r.Violate("C07/second-reader-granted", fmt.Sprintf("connection %d: Reader succeeded while a message is still being read", k), "")
+					return
+				}
+				time.Sleep(300 * time.Microsecond)
+			}
+			for _, f := range frs[1:] {
+				peer.Send(f)
+			}
+			for {
+				n, e := rd.Read(buf)
+				data = append(data, buf[:n]...)
+				if e != nil {
+					if e != io.EOF {
+						if w := scanForeign(data, k); w != "" {
+							r.Violate("C07/foreign-bytes-in-read/"+beh, fmt.Sprintf("connection %d: %s", k, w), "")
+						}
+						outcome = "error-after-refused-reader: " + vioClass(e.Error())
+					}
+					break
+				}
+			}
+			if w := checkProvenance(data, k, m); w != "" {
+				r.Violate("C07/foreign-bytes-in-read/"+beh, fmt.Sprintf("connection %d: after a refused Reader call in the middle of message %d: %s", k, m, w), "")
+			}
+			r.Count("granules_verified", int64(len(data)/16))
 		case "abandon-half-read+Close", "abandon-half-read+CloseNow":
 			for _, f := range frs {
 				peer.Send(f)
